@@ -61,8 +61,15 @@ def _pairs(jp):
     return [(k, v) for k, v in jp]
 
 
+def _cv(v):
+    """values the cases use are None/int/str; anything else (e.g. the internal tombstone) is named by type"""
+    if v is None or type(v) in (int, str):
+        return v
+    return {"<foreign>": type(v).__name__}
+
+
 def _canon_items(items):
-    return [[k, v] for k, v in items]
+    return [[_cv(k), _cv(v)] for k, v in items]
 
 
 # ---------------------------------------------------------------- the real implementation
@@ -238,11 +245,11 @@ def _canon_result(res):
     if tag == "items":
         return {"items": _canon_items(val)}
     if tag in ("keys", "vals"):
-        return {tag: list(val)}
+        return {tag: [_cv(x) for x in val]}
     if tag == "b":
         assert val is True or val is False
         return {"b": val}
-    return {"v": val}
+    return {"v": _cv(val)}
 
 
 # ---------------------------------------------------------------- reference overlay (spec B in Python)
